@@ -321,6 +321,21 @@ func Format(input []byte) []byte {
 		beginningOfLine = false
 	}
 
+	// an opening brace at the very end of the input is still waiting
+	// for the token after it; write it rather than dropping it
+	if openBrace && !openBraceWritten {
+		if nesting == 0 && last == '}' {
+			nextLine()
+			nextLine()
+		}
+		if beginningOfLine {
+			indent()
+		} else if !openBraceSpace {
+			write(' ')
+		}
+		write('{')
+	}
+
 	// the Caddyfile does not need any leading or trailing spaces, but...
 	trimmedResult := bytes.TrimSpace(out.Bytes())
 
